@@ -8,4 +8,4 @@ one() {
   echo "$id $out"
 }
 export -f one
-ls seeded | xargs -P 4 -I{} bash -c 'one {}'
+ls seeded | xargs -P 3 -I{} bash -c 'one {}'
